@@ -260,7 +260,27 @@ def run_session(case: dict) -> dict:
                     abstract.append((k, "skipped"))
                     continue
                 want = model_tree(chain)
-                v = DecayChainViewer(chain)
+                if op.get("thread"):
+                    # the caller builds this graph from a worker thread (started and joined: no interleaving, only another thread identity)
+                    import threading
+
+                    box = {}
+
+                    def work():
+                        try:
+                            box["v"] = DecayChainViewer(chain)
+                        except BaseException as e:  # noqa: BLE001
+                            box["e"] = e
+
+                    t = threading.Thread(target=work, name=f"sim-worker-{step}")
+                    t.start()
+                    t.join()
+                    if "e" in box:
+                        raise box["e"]
+                    v = box["v"]
+                    stats["builds_in_worker_thread"] = stats.get("builds_in_worker_thread", 0) + 1
+                else:
+                    v = DecayChainViewer(chain)
                 src = v.to_string()
                 stats["builds"] += 1
                 try:
@@ -419,6 +439,7 @@ def gen_session(rng: random.Random, cfg: dict | None = None) -> dict:
     n = rng.randint(2, cfg.get("max_builds", 12))
     p_dot = cfg.get("p_dot", 0.05)
     p_fail = rng.choice([0.0, 0.15, 0.3])
+    p_thread = rng.choice([0.0, 0.0, 0.3])
     ops = []
 
     def source():
@@ -445,7 +466,10 @@ def gen_session(rng: random.Random, cfg: dict | None = None) -> dict:
         elif r < p_fail + p_dot + 0.1:
             ops.append({"op": "bystander", "what": rng.choice(["format", "query"]), "c": rng.randrange(3), "doc": rng.randrange(len(docs))})
         else:
-            ops.append({"op": "build", **source()})
+            b = {"op": "build", **source()}
+            if rng.random() < p_thread:
+                b["thread"] = True
+            ops.append(b)
             builds += 1
     if rng.random() < p_dot * 4:
         ops.append({"op": "dot", "g": rng.randrange(builds)})
@@ -471,6 +495,9 @@ def candidates(case: dict):
             if len(new) < n:
                 yield {**case, "ops": new}
         size //= 2
+    for i, op in enumerate(ops):
+        if op.get("thread"):
+            yield {**case, "ops": ops[:i] + [{k: v for k, v in op.items() if k != "thread"}] + ops[i + 1 :]}
     for i, op in enumerate(ops):
         if op.get("stable"):
             yield {**case, "ops": ops[:i] + [{**op, "stable": []}] + ops[i + 1 :]}
